@@ -136,6 +136,23 @@ def install_watchdog() -> None:
             setattr(mod, "unpack_ldap_message", g)
 
 
+def _copy_memoryview(mv: memoryview) -> t.Any:
+    data = mv.tobytes()
+    return (_make_memoryview, (data, mv.readonly))
+
+
+def _make_memoryview(data: bytes, readonly: bool) -> memoryview:
+    return memoryview(data if readonly else bytearray(data))
+
+
+# The harness observes sessions through copy.deepcopy (what is queued, what a call would do).  Nothing promises that a
+# session only holds picklable values: a tree that keeps a memoryview in a session must still be judged, not crash the
+# check - copies get their own octets.
+import copyreg  # noqa: E402
+
+copyreg.pickle(memoryview, _copy_memoryview)
+
+
 class MachineryError(Exception):
     """The verification machinery itself failed (exit code 2) - never a verdict about the library."""
 
